@@ -206,11 +206,33 @@ def canonAmb (c : Config) (n : Nat) (r : Result) : String :=
   " p=" ++ joinOr ";" (r.policies.map (showPolicy n)) ++
   " s=" ++ joinOr ";" ((List.range c.servers.length).map (showFlagsOnly c r))
 
+/-- Go's `<` on strings: lexicographic on bytes -/
+def lexLt : Bytes → Bytes → Bool
+  | [], [] => false
+  | [], _ :: _ => true
+  | _ :: _, [] => false
+  | x :: xs, y :: ys => if x < y then true else if y < x then false else lexLt xs ys
+
+def insertByName (names : List Bytes) (i : Nat) : List Nat → List Nat
+  | [] => [i]
+  | j :: rest =>
+    if lexLt (names.getD i []) (names.getD j []) then i :: j :: rest else j :: insertByName names i rest
+
+/-- `slices.Sorted(maps.Keys(app.Servers))`: the server indices in the order of their names -/
+def sortedServers (names : List Bytes) : List Nat :=
+  (List.range names.length).foldl (fun acc i => insertByName names i acc) []
+
+/-- the iteration orders of the repaired code: every `range` runs over sorted keys.  Only the
+    order of the servers is visible in the canonical line (`Props.deterministic` shows that no
+    runtime order is left; the observations forget the order of the other maps by construction) -/
+def sortedOrders (names : List Bytes) : Orders :=
+  { Orders.id with srv := sortedServers names, recv := fun _ => sortedServers names }
+
 def showOutcome (c : Config) (n : Nat) : Outcome → String
   | .errTLS => "err:tls"
   | .errMatcher => "err:matcher"
   | .errAddr => "err:addr"
-  | .ok r => if ambiguous c then canonAmb c n r else canon c n r
+  | .ok r => canon c n r
 
 def handle : List String → String
   | ["cfg", k, hp, sp, names, servers, policies, loaded] =>
@@ -219,21 +241,16 @@ def handle : List String → String
     | some k, some hp, some sp, some names, some srvs, some pols, some [ld] =>
       if wellFormed k hp sp names srvs pols ld then
         showOutcome ⟨hp, sp, srvs.map (·.2), pols, indexOfName reservedName srvs 0⟩ names.length
-          (phase1 ⟨hp, sp, srvs.map (·.2), pols, indexOfName reservedName srvs 0⟩ (paramsOf names) Orders.id)
+          (phase1 ⟨hp, sp, srvs.map (·.2), pols, indexOfName reservedName srvs 0⟩ (paramsOf names)
+            (sortedOrders (srvs.map (·.1))))
       else "bad-op"
     | _, _, _, _, _, _, _ => "bad-op"
   | _ => "bad-op"
 
 /-- counter-example lines replayed on the implementation on every run (see Witness.lean) -/
 def witnessLines : List String := [
-  -- Witness.deterministic_full_fails (DESIGN F16): a.test on :8443 and on :9443
-  "C11 cfg 64 0 0 -:00000:10;612e74657374:11000:01 7330/0.-.8443.8443/00000/-/-/h1;7331/0.-.9443.9443/00000/-/-/h1 - 0",
-  -- Witness.receiver_depends_on_order: two servers on the HTTP port
-  "C11 cfg 64 0 0 -:00000:10;612e74657374:11000:01 7330/0.-.443.443/00000/-/-/h1;7331/0.31302e312e312e31.80.80/00000/-/-/c;7332/0.3132372e302e302e31.80.80/00000/-/-/c - 0",
-  -- Witness.effective_depends_on_route_order: one server on :8443 and :443
-  "C11 cfg 64 0 0 -:00000:10;612e74657374:11000:01 7330/0.-.8443.8443,0.-.443.443/00000/-/-/h1 - 0",
-  -- Witness.redirect_port_full_fails: catch-all redirect of a name-less TLS server shadows a.test
-  "C11 cfg 64 0 0 -:00000:10;612e74657374:11000:01 7330/0.-.8443.8443/00000/-/-/h1;7331/0.-.9443.9443/00002/-/-/- - 0",
+  -- Witness.redirect_port_full_fails: catch-all redirect of a name-less TLS server (sorted first) shadows a.test
+  "C11 cfg 64 0 0 -:00000:10;612e74657374:11000:01 7330/0.-.9443.9443/00000/-/-/h1;7331/0.-.8443.8443/00002/-/-/- - 0",
   -- Witness.redirect_exists_full_fails: no managed certificate names, existing HTTP server
   "C11 cfg 64 0 0 -:00000:10;612e74657374:11000:01 7330/0.-.8443.8443/00100/-/-/h1;7331/0.-.80.80/00000/-/-/c - 0"]
 
